@@ -7,10 +7,12 @@ import (
 	"fmt"
 	"reflect"
 	"sort"
+	"strconv"
 	"time"
 
 	protocol "github.com/hujm2023/go-sms-protocol"
 	"github.com/hujm2023/go-sms-protocol/cmpp/cmpp20"
+	"github.com/hujm2023/go-sms-protocol/sgip"
 	"github.com/hujm2023/go-sms-protocol/sgip/sgip12"
 	"github.com/hujm2023/go-sms-protocol/smgp/smgp30"
 	"github.com/hujm2023/go-sms-protocol/smpp/smpp34"
@@ -474,6 +476,15 @@ func dispatchAnyType(r *core.Run, proto *spec.Proto) {
 		if got := back.GetCommand().ToUint32(); got != cmd {
 			r.Fail("C10", "command", site, "decoded", "decoded from command id %#x, GetCommand() reports %#x", cmd, got)
 		}
+		// types outside the request/response table (generic_nack, SGIP report …) have setters too
+		if c.Prob(1, 2) {
+			checkSetSeq(r, proto, back, "dispatched")
+			var b2 []byte
+			if p := r.Call(site+".IEncode", func() { b2, err = back.IEncode() }); p == nil && err == nil {
+				b = b2
+			}
+		}
+		headerAccessors(r, back)
 		// the same image cut short or damaged in its tail: a PDU or an error, never neither
 		hl := proto.HeaderLen()
 		for k2 := 0; k2 < 3 && len(b) > hl+1; k2++ {
@@ -564,6 +575,32 @@ func dispatchRetention(r *core.Run, proto *spec.Proto) {
 
 // checkSetSeq: on a PDU obtained from the library, setting a sequence number is visible through the getter and
 // at the header's sequence offset, and leaves the command id alone.
+// headerAccessors: the embedded header of an SGIP PDU has accessors of its own (the message id a gateway files the
+// submit under); they must agree with the PDU's getter, and a report's submit id with the third word it carries.
+func headerAccessors(r *core.Run, pdu protocol.PDU) {
+	v := reflect.ValueOf(pdu)
+	if v.Kind() != reflect.Pointer || v.Elem().Kind() != reflect.Struct {
+		return
+	}
+	site := typeSite(pdu)
+	if hf := v.Elem().FieldByName("Header"); hf.IsValid() && hf.CanAddr() {
+		if h, ok := hf.Addr().Interface().(*sgip.Header); ok {
+			r.Probe("sgip_header_accessors")
+			if h.GetSequenceID() != pdu.GetSequenceID() {
+				r.Fail("C10", "set-seq", site, "header-getter", "Header.GetSequenceID()=%d, the PDU's getter says %d", h.GetSequenceID(), pdu.GetSequenceID())
+			}
+			if want := strconv.FormatUint(uint64(pdu.GetSequenceID()), 10); h.GetMsgId() != want {
+				r.Fail("C10", "set-seq", site, "header-msgid", "Header.GetMsgId()=%q for sequence number %d", h.GetMsgId(), pdu.GetSequenceID())
+			}
+		}
+	}
+	if rp, ok := pdu.(*sgip12.Report); ok {
+		if rp.GetSubmitId() != rp.SubmitSequence[2] || rp.GetSubmitIdStr() != strconv.FormatUint(uint64(rp.SubmitSequence[2]), 10) {
+			r.Fail("C10", "set-seq", site, "submit-id", "GetSubmitId()=%d GetSubmitIdStr()=%q, the report carries %d", rp.GetSubmitId(), rp.GetSubmitIdStr(), rp.SubmitSequence[2])
+		}
+	}
+}
+
 func checkSetSeq(r *core.Run, proto *spec.Proto, pdu protocol.PDU, how string) {
 	c := r.C
 	site := typeSite(pdu)
